@@ -337,6 +337,28 @@ ADDENDA2 = {
     "C19": "Stores of sha256 / sha1 / legacy algorithm; merge of 20000-entry listings.",
     "C20": "JSON rewritten over a longer file; 2500-entry index through the stored forms.",
 }
+ADDENDA3 = {
+    # waves 8 and 10: error / clean-up / recovery paths and state that outlives one call
+    "C02": "Index saved twice around a rewritten file (same index object); round trip into a wiped location in the same process.",
+    "C03": "Builds of one directory under md5 and the legacy algorithm sharing one hash-state.",
+    "C05": "Refused removal of the corrupt cache object then the same call again; clean-up right after a refusal; file-to-file target; entries that cannot be examined (ELOOP).",
+    "C06": "Sessions: two gc calls of one process on one store (same / fresh / get_odb handle, other configuration, external changes in between).",
+    "C07": "Fault part: removal refused during one query and permitted for the next (9 x 9), uploads that write half of the bytes in place and fail.",
+    "C08": "Both sides SQLite-backed (one rebuilt in-session by deletes and overwrites, one reopened).",
+    "C09": "Targets of file entries only; unavailable sources under every link type; directory objects damaged in four more ways, retry on the same index object; a file unknown to the workspace index in a directory that is to go.",
+    "C10": "Recovery part: refused workspace removals, a target object missing then restored (workspace kept / wiped), a cache that refuses chmod.",
+    "C11": "Destination with a hash-state database under verify.",
+    "C12": "ENOENT upload faults; process kills on entering the k-th index transaction (operations and a fourth initial state).",
+    "C13": "Batch lookups with a kept, never filled mapping of known stat results.",
+    "C14": "Independent and interleaved streams of one algorithm (incl. blake3); CR LF texts in the state algorithm pairs.",
+    "C15": "Source store holding a half-written unprotected leftover (file missing on both sides).",
+    "C17": "Further storage prefixes registered after the root.",
+    "C18": "Failed fetch round from a verifying remote with damaged objects, then repair and retry.",
+    "C19": "Ours derived from the loaded ancestor object; merge result stored after further merges.",
+    "C20": "Two SQLite-backed indexes of one process holding the same keys; key-value database written twice; lookups of absent keys.",
+}
+for _pid, _t in ADDENDA3.items():
+    ADDENDA2[_pid] = (ADDENDA2.get(_pid, "") + " " + _t).strip()
 for _pid, _t in ADDENDA2.items():
     ADDENDA[_pid] = ADDENDA.get(_pid, "") + " " + _t
 for _pid, _t in ADDENDA.items():
